@@ -53,6 +53,13 @@ def designs(draw, max_mods=4, max_prims=3, max_insts=4, max_w=4):
                               unique=True))
         ports = [{"name": names[k], "dir": draw(st.sampled_from(DIRS)), "w": draw(st.integers(1, max_w))}
                  for k in range(nports)]
+        alias_names = []
+        if ports and draw(st.integers(0, 4)) == 0:
+            ap = ports[draw(st.integers(0, len(ports) - 1))]
+            # header alias  .p({n_hi, ..., n_lo})  with single-bit internal nets (the documented limit)
+            ap["alias"] = ["%s_al%d" % (ap["name"].strip().strip("\\").replace("[", "_").replace("]", "_")
+                                        .replace(".", "_"), k) for k in reversed(range(ap["w"]))]
+            alias_names = list(ap["alias"])
         wires = []
         implicit = []
         for nm in names[nports:]:
@@ -66,7 +73,11 @@ def designs(draw, max_mods=4, max_prims=3, max_insts=4, max_w=4):
                 wires.append({"name": nm, "msb": lsb + w - 1, "lsb": lsb, "ranged": ranged})
         nets = []  # (name, lsb, width)
         for p in ports:
-            nets.append((p["name"], 0, p["w"]))
+            if "alias" in p:
+                for an in p["alias"]:
+                    nets.append((an, 0, 1))
+            else:
+                nets.append((p["name"], 0, p["w"]))
         for wr in wires:
             nets.append((wr["name"], wr["lsb"] if wr["ranged"] else 0,
                          wr["msb"] - wr["lsb"] + 1 if wr["ranged"] else 1))
@@ -232,12 +243,21 @@ def render(d):
 
     def header(name, ports, ansi, params=None):
         out = "module %s" % name
+        if any("alias" in p for p in ports):
+            ansi = False
         if ansi:
             decl = ["%s %s%s" % (p["dir"], rng(p["w"]), p["name"]) for p in ports]
             out += "(%s);\n" % ", ".join(decl)
         else:
-            out += "(%s);\n" % ", ".join(p["name"] for p in ports)
+            out += "(%s);\n" % ", ".join(
+                ".%s({%s})" % (p["name"], ", ".join(p["alias"])) if "alias" in p else p["name"]
+                for p in ports)
             for p in ports:
+                if "alias" in p:
+                    info["alias"] = info.get("alias", 0) + 1
+                    for an in p["alias"]:
+                        out += "  %s %s;\n" % (p["dir"], an)
+                    continue
                 out += "  %s %s%s%s;\n%s" % (p["dir"], "wire " if ch.flag(1, 4) else "", rng(p["w"]),
                                               p["name"], comment())
         return out
@@ -274,6 +294,11 @@ def render(d):
                                                         "w": p["w"], "lo": 0} for p in M["ports"]],
               "cables": {}, "conn": {}, "insts": {}, "assigns": []}
         for p in M["ports"]:
+            if "alias" in p:
+                for k, an in enumerate(reversed(p["alias"])):
+                    eM["cables"][an] = {"lo": 0, "w": 1}
+                    eM["conn"].setdefault("%s[0]" % an, []).append(["port", ir_name(p["name"]), k])
+                continue
             eM["cables"][ir_name(p["name"])] = {"lo": 0, "w": p["w"]}
             for b in range(p["w"]):
                 eM["conn"].setdefault("%s[%d]" % (ir_name(p["name"]), b), []).append(
@@ -406,7 +431,13 @@ def in_domain(d):
             for pi, e in inst["conns"]:
                 if pi >= len(T["ports"]):
                     return False
-        declared = {p["name"]: (0, p["w"]) for p in M.get("ports", [])}
+        declared = {}
+        for p in M.get("ports", []):
+            if "alias" in p:
+                for an in p["alias"]:
+                    declared[an] = (0, 1)
+            else:
+                declared[p["name"]] = (0, p["w"])
         for wr in M.get("wires", []):
             declared[wr["name"]] = (wr["lsb"], wr["msb"] - wr["lsb"] + 1) if wr["ranged"] else (0, 1)
 
